@@ -329,3 +329,49 @@ def o_degenerate(ad, gen):
             Z.fill_edge_fields(ad, C, gen)
         check("coincident-points", C)
     return fails
+
+
+# ---------------------------------------------------------------------------------------------------
+# call history: the same tensor OBJECTS, modified in place between two calls (added after the second mutation round)
+# ---------------------------------------------------------------------------------------------------
+def o_inplace_history(ad, gen):
+    """forward(S); edit S's tensors in place (move one node well inside the cutoff, swap two nodes); forward(S) again with the
+    same objects  ==  forward on freshly cloned tensors with the same contents"""
+    import torch
+    out = []
+    S = Z.random_sample(ad, gen, sizes=(4, 3))
+    y0, ex = _try(ad, S)
+    if ex:
+        return out
+    hist = ["y0 = model(S)"]
+    with torch.no_grad():
+        if S["pos"] is not None:
+            S["pos"][0].copy_(S["pos"][1] + 0.05 * (ad.r_max or 1.0))
+            hist.append("pos[0] moved in place next to pos[1]")
+        else:
+            for k in S["node"]:
+                S["node"][k][0].mul_(-2.0)
+            hist.append("node features of node 0 scaled in place")
+        # swap nodes 2 and 5 (different graphs) in every per-node tensor, in place
+        for tns in [S["batch"]] + ([S["pos"]] if S["pos"] is not None else []) + list(S["node"].values()):
+            a, b = tns[2].clone(), tns[5].clone()
+            tns[2].copy_(b)
+            tns[5].copy_(a)
+        hist.append("nodes 2 and 5 (different graphs) swapped in place in batch/pos/features")
+        if S["edge_index"] is not None:
+            ei = S["edge_index"]
+            m2, m5 = ei == 2, ei == 5
+            ei[m2] = 5
+            ei[m5] = 2
+    y1, ex1 = _try(ad, S)
+    y2, ex2 = _try(ad, Z.clone_sample(S))
+    hist.append("y1 = model(S)  (same tensor objects);  y2 = model(clone of S)")
+    if ex1 or ex2:
+        if bool(ex1) != bool(ex2):
+            out.append(_fail("inplace-history", ad, S, history=hist, exception_same_objects=ex1, exception_fresh_clone=ex2))
+        return out
+    e = _err(y1, y2) / _scale(y2)
+    if e > TIGHT:
+        out.append(_fail("inplace-history", ad, S, history=hist, rel_err=e,
+                         expected="the result depends on the contents of the tensors only, not on their identity or on earlier calls"))
+    return out
